@@ -29,6 +29,8 @@ def expr_text(d):
         return f"{d['a']} | {d['b']}"
     if op == "add":
         return f"{d['a']} + {d['b']}"
+    if op == "bnot":
+        return f"!{d['a']}"
     raise ValueError(op)
 
 
@@ -234,6 +236,14 @@ pub fn run() {{
         mods.append((key, mod))
         ext_keys.append(key)
         meta[key] = ({"vs": [{"disc": {"op": "lit"}}], "discs": [], "extremes": t, "_module": mod}, "")
+        # bitwise-not of a literal: `!1` is MAX - 1 in an unsigned repr, -2 in a signed one
+        key3 = f"extremes:{t}:bnot"
+        if not replay or json.load(open(replay))["key"] == key3:
+            a3, c3 = ("0", "!1") if not signed else ("!0", "!-5")
+            mod3 = mod.replace(f"A = <{t}>::MIN, B, C = <{t}>::MAX - 1, D", f"A = {a3}, B, C = {c3}, D").replace(json.dumps(key), json.dumps(key3))
+            mods.append((key3, mod3))
+            ext_keys.append(key3)
+            meta[key3] = ({"vs": [{"disc": {"op": "lit"}}], "discs": [], "extremes": t, "_module": mod3}, "")
         # the same layout with the discriminants written as LITERALS (decimal, hex with separators, suffixed): values beyond
         # isize / i64 / u64 are ordinary discriminants of the wider and of the unsigned reprs
         bits = BITS[t]
